@@ -27,13 +27,15 @@ XCols(labels, rows, n) == [c \in 1..Len(labels) |-> [r \in 1..n |-> rows[r][c]]]
 
 JudgeRoundTrip(e) ==
   LET K == e.K   F == e.F   K2 == e.K2   n == Len(K.q)
-      lab == [i \in 1..n |-> LabelOf(K, i)]
+      \* site labels: any scheme, as long as every atom has its own (the loops below refer to atoms through them);
+      \* the library's scheme is element + running count per element (LabelOf), which is not demanded
+      lab == F.atom_labels
       lb(k, m, p) == lab[K[k].ix[m][p] + 1]
       tors == Torsions(K)
   IN IF e.exc # "none" THEN "no-exception"
      ELSE IF F.spacegroup \notin {"P 1", "P1"} THEN "space-group-P1"
      ELSE IF F.cellpar # e.cellpar THEN "cell-lengths-and-angles"
-     ELSE IF F.atom_labels # lab THEN "atom-labels-unique-in-order"
+     ELSE IF Len(F.atom_labels) # n \/ \E i, j \in 1..Len(F.atom_labels) : i # j /\ F.atom_labels[i] = F.atom_labels[j] THEN "atom-labels-unique-in-order"
      ELSE IF F.atom_symbols # [i \in 1..n |-> ElOf(K, i)] THEN "elements-and-order"
      ELSE IF F.coordkind # (IF e.out = "cart" THEN "cartn" ELSE "fract") THEN "coordinate-kind"
      ELSE IF e.out = "fract" /\ F.coords # [i \in 1..n |-> <<K.pos[i][1] * 125, K.pos[i][2] * 125, K.pos[i][3] * 125>>] THEN "fractional-coordinates"
